@@ -5,7 +5,9 @@ quotes, ordinary text), written as `///`, `/** */` or `#[doc = ".."]`, on every 
 languages.  Model and implementation are compared byte for byte; the oracle tokenises the IMPLEMENTATION's text
 with the comment lexers of the six languages (the automata of TsV/Lemmas/C15_Spec.lean, cross-checked against
 the Lean ones on every run) and requires every sentinel planted in a doc string to lie inside a comment /
-docstring.  `bad(...)` is the python twin of the Lean predicate `Bad`."""
+docstring.  `entries_of(...)` is the python twin of the parser's line splitting (`Parser.docEntries`), `bad(...)`
+of the Lean predicate `Bad` on one entry; after the three repairs (line splitting in the parser, `*/` and `\"\"\"`
+escaped by the TypeScript / Python printers) the only entries that are still Bad are Scala's with U+001A."""
 import re
 from common import *
 from syn_gen import *
@@ -15,9 +17,9 @@ import l2
 NEEDS = ("runner",)
 TRUSTED = ["TsV/Lemmas/C15_Spec.lean: the comment lexers cStep (// and /* */, per-language line terminators, nesting) and pyStep "
            "(#, short and triple-quoted strings with backslash escapes); the origin tags of renderT (erase_renderT / "
-           "docChars_renderT pin them to the model's renderers); `contained`; `Bad`",
-           "tools/c15.py: python twins of the lexers and of Bad (compared with the Lean ones through the `c15` / `c15-mask` "
-           "driver requests on every run); the sentinel scheme"]
+           "docChars_renderT pin them to the model's renderers); `contained`; `Bad`; `KnownScalaSub`",
+           "tools/c15.py: python twins of the lexers, of the parser's line splitting and of Bad (compared with the Lean ones "
+           "through the `c15` / `c15-mask` driver requests on every run); the sentinel scheme"]
 
 SENT = re.compile(r"Z\d+Q")
 # Rust `char::is_whitespace` (White_Space), what `str::trim` strips
@@ -147,13 +149,30 @@ def unescaped_triple_quote(s):
     return None
 
 
-def first_escape(style, d):
-    """index in the (trimmed) doc string just after the first sequence that ends the comment, or None (= not Bad)"""
+def entries_of(d):
+    """twin of Parser.docEntries on one `#[doc]` string: trimmed, split at LF, CRLF and lone CR, every line trimmed"""
+    return [rust_trim(l) for l in re.split("[\n\r]", rust_trim(d).replace("\r\n", "\n"))]
+
+
+def written(style, e):
+    """twin of C15_Spec.written: what the printer writes for one entry"""
     if style == "typescript":
-        i = d.find("*/")
+        return e.replace("*/", "*\\/")
+    if style == "pydoc":
+        return e.replace('"""', '\\"\\"\\"')
+    if style == "swift":
+        return rust_trim_end(e)
+    return e
+
+
+def first_escape(style, d):
+    """index in the entry (for typescript / pydoc: in its written form) just after the first sequence that ends the
+    comment, or None (= not Bad)"""
+    if style == "typescript":
+        i = written(style, d).find("*/")
         return None if i < 0 else i + 2
     if style == "pydoc":
-        return unescaped_triple_quote(d)
+        return unescaped_triple_quote(written(style, d))
     eol = {"kotlin": "\n\r", "swift": "\n\r", "scala": "\n\r\x1a", "go": "\n", "pyhash": "\n\r"}[style]
     if style == "swift":
         d = rust_trim_end(d)
@@ -165,9 +184,10 @@ def bad(style, d):
     return first_escape(style, d) is not None
 
 
-CLASS = {"typescript": "ts-block-comment-terminator", "pydoc": "py-docstring-triple-quote", "kotlin": "line-break-in-line-comment",
-         "swift": "line-break-in-line-comment", "scala": "line-break-in-line-comment", "go": "line-break-in-line-comment",
-         "pyhash": "line-break-in-line-comment"}
+# the only open class: Scala's scanner ends a `//` comment at U+001A, at which the parser does not split.  The classes
+# line-break-in-line-comment, ts-block-comment-terminator and py-docstring-triple-quote are repaired (KNOWN_FINDINGS.txt:
+# fixed); a Bad entry of any other style is a violation.
+CLASS = {"scala": "scala-sub-in-line-comment"}
 
 
 def style_of(lang, pos):
@@ -291,12 +311,12 @@ def judge(lang, docs, texts):
         o, s = outside(lang, t)
         out += o
         seen |= s
-    bads = [(style_of(lang, p), d) for p, d in docs if bad(style_of(lang, p), d)]
+    bads = [(style_of(lang, p), e) for p, d in docs for e in entries_of(d) if bad(style_of(lang, p), e)]
     escapes_inside = []
     if len(bads) == 1:
         sty, d = bads[0]
         i = first_escape(sty, d)
-        m = SENT.match(d, i)
+        m = SENT.match(written(sty, d), i)
         if m and m.group(0) in seen and m.group(0) not in out:
             escapes_inside.append(m.group(0))
     return dict(outside=out, bad=bads, escapes_inside=escapes_inside, seen=seen)
@@ -316,34 +336,57 @@ def witness_file(kind, doc):
 
 
 WITNESSES = [
+    ("scala-sub-in-line-comment", "scala", "struct", "a\x1aZ1Q"),
+]
+# witnesses of the repaired classes: the oracle must pass on them now; if one fails, the defect has returned
+REPAIRED = [
     ("line-break-in-line-comment", "kotlin", "struct", "a\nZ1Q"),
     ("line-break-in-line-comment", "swift", "struct", "a\nZ1Q"),
     ("line-break-in-line-comment", "scala", "struct", "a\nZ1Q"),
     ("line-break-in-line-comment", "go", "struct", "a\nZ1Q"),
     ("line-break-in-line-comment", "python", "enum", "a\nZ1Q"),
+    ("line-break-in-line-comment", "kotlin", "struct", "a\rZ1Q"),
+    ("line-break-in-line-comment", "swift", "struct", "a\r\nZ1Q"),
+    ("line-break-in-line-comment", "python", "enum", "a\rZ1Q"),
     ("ts-block-comment-terminator", "typescript", "struct", "a */ Z1Q"),
+    ("ts-block-comment-terminator", "typescript", "struct", "a **/*/ Z1Q"),
     ("py-docstring-triple-quote", "python", "struct", 'a """ Z1Q'),
+    ("py-docstring-triple-quote", "python", "struct", 'a \\"""" Z1Q'),
+    ("py-docstring-triple-quote", "python", "struct", 'a """"" Z1Q'),
 ]
 
 
 def replay_witnesses(check):
     g = Gen(check.rng)
     reqs = []
-    for kid, lang, kind, doc in WITNESSES:
-        f = witness_file(kind, doc)
-        _, r, t = one_file_request(lang, f, g)
-        reqs.append((kid, lang, doc, r, t[0]))
-    answers = runner([r[3] for r in reqs])
-    for (kid, lang, doc, _, src), a in zip(reqs, answers):
+    for open_class, ws in ((True, WITNESSES), (False, REPAIRED)):
+        for kid, lang, kind, doc in ws:
+            f = witness_file(kind, doc)
+            _, r, t = one_file_request(lang, f, g)
+            reqs.append((open_class, kid, lang, doc, r, t[0]))
+    answers = runner([r[4] for r in reqs])
+    for (open_class, kid, lang, doc, r, src), a in zip(reqs, answers):
         if "ok" not in a:
+            if not open_class:
+                check.violation("%s: the witness %r of the repaired class %s is not generated" % (lang, doc, kid),
+                                case={"source": src, "lang": lang, "request": r}, impl=a, failing_input=True)
             continue
         texts = list(a["ok"].values())
-        out = [s for t in texts for s in outside(lang, t)[0]]
+        out, seen = [], set()
+        for t in texts:
+            o, sn = outside(lang, t)
+            out += o
+            seen |= sn
+        check.count("witness-" + ("open-" if open_class else "repaired-") + kid)
         if "Z1Q" in out:
             w = {"lang": lang, "doc": doc, "source": src, "output": "\n".join(texts)[:600]}
-            if not check.known(kid, w):
-                check.violation("%s: doc text %r is generated outside the comment" % (lang, doc),
-                                case={"source": src, "lang": lang}, impl=a, failing_input=True)
+            if not (open_class and check.known(kid, w)):
+                check.violation("%s: doc text %r is generated outside the comment%s" % (
+                                    lang, doc, "" if open_class else " (the repaired defect %s has returned)" % kid),
+                                case={"source": src, "lang": lang, "request": r}, impl=a, failing_input=True)
+        elif "Z1Q" not in seen and not open_class:
+            check.violation("%s: the doc text %r is not reproduced in the output" % (lang, doc),
+                            case={"source": src, "lang": lang, "request": r}, impl=a, failing_input=True)
 
 
 # ----------------------------------------------------------------------------- Lean twins
@@ -356,7 +399,9 @@ def lean_twins(check, n):
     reqs, meta = [], []
     for i in range(n):
         sty = styles[i % 7]
-        docs = [rust_trim("".join(rng.choice(alphabet) for _ in range(rng.randint(0, 4)))) for _ in range(rng.choice([0, 1, 1, 2, 3]))]
+        docs = ["".join(rng.choice(alphabet) for _ in range(rng.randint(0, 4))) for _ in range(rng.choice([0, 1, 1, 2, 3]))]
+        if i % 2:
+            docs = [rust_trim(d) for d in docs]
         ind = rng.randint(0, 2)
         reqs.append([S("c15"), S(sty), ind, docs])
         meta.append((sty, ind, docs))
@@ -368,6 +413,11 @@ def lean_twins(check, n):
         pbad = [bad(sty, d) for d in docs]
         tags = a["tags"]
         pcont = closed and all(mb == "1" for mb, tg in zip(pm, tags) if tg == "1")
+        pent = [e for d in docs for e in entries_of(d)]
+        em, eclosed = mask_of(lang, a["entries_text"])
+        # every sentinel-free character of an entry block that is not printer text: approximated by "block closed and
+        # no Bad entry" on the python side, compared with Lean's `contained` of the entries
+        pknown = sty == "scala" and any("\x1a" in e for e in pent)
         problem = None
         if a["text"] != a["erased"]:
             problem = "erase (renderT ..) differs from the model's renderer"
@@ -377,10 +427,16 @@ def lean_twins(check, n):
             problem = "python Bad and Lean Bad disagree"
         elif pcont != a["contained"] or a["contained"] != (not any(a["bad"])):
             problem = "contained / Bad mismatch (theorem C15_iff)"
+        elif pent != a["entries"]:
+            problem = "python entries_of and Lean Parser.docEntries disagree"
+        elif pknown != a["known_scala_sub"] or any(bad(sty, e) for e in pent) != pknown:
+            problem = "KnownScalaSub mismatch (theorem C15_entries_Bad)"
+        elif a["entries_contained"] != (not pknown) or (not pknown and not eclosed):
+            problem = "contained (entries ..) / KnownScalaSub mismatch (theorem C15_exact)"
         if problem:
             check.violation("%s on style %s, docs %r" % (problem, sty, docs), case={"style": sty, "indent": ind, "docs": docs},
                             impl={"python_mask": pm, "python_bad": pbad, "python_contained": pcont}, model=a, failing_input=False,
-                            broken="tools/c15.py lexers / Bad are not the ones of TsV/Lemmas/C15_Spec.lean (theorems TsV.C15.C15_iff, C15_partial)")
+                            broken="tools/c15.py lexers / entries_of / Bad are not the ones of TsV/Lemmas/C15_Spec.lean (theorems TsV.C15.C15_iff, C15_exact)")
             return False
     return True
 
@@ -415,9 +471,11 @@ def run(check):
                   "aliases; every string is 0-4 pieces of the alphabet {ordinary words, //, /*, */, **/, ''', ', \", \"\", \"\"\", "
                   "\"\"\"\", \\, \\\", \\\"\"\", \\\\\"\"\", #, `, *, /, LF, CR, CRLF, U+001A, LF//, LF/*} with a unique sentinel "
                   "Z<k>Q after every dangerous piece and after half of the others, written as ///, /** */ or #[doc = \"..\"]; per "
-                  "file each of the three dangerous classes is left out with probability 1/2 so that every language sees files "
-                  "that are clean for it but dangerous for the others; six languages per file; byte-exact comparison with "
-                  "the model; oracle = sentinels of the implementation's text must lie inside comment tokens; "
+                  "file each of the three dangerous classes is left out with probability 1/2; six languages per file; "
+                  "byte-exact comparison with the model; oracle = sentinels of the implementation's text must lie inside "
+                  "comment tokens, for every file none of whose comment entries (doc string split at LF / CRLF / CR, trimmed) "
+                  "is in the open class (Scala, U+001A); the witnesses of the three repaired classes are replayed and must "
+                  "pass the oracle; "
                   "non-trivial = the file has a doc string with a dangerous or harmless-special piece")
     replay_witnesses(check)
     if not lean_twins(check, 21000 if check.thorough else 2100):
@@ -461,7 +519,7 @@ def run(check):
         if not j["bad"]:
             check.count("clean-" + lang)
             if j["outside"]:
-                check.violation("%s: doc text is generated outside a comment although no doc string is in a known class; "
+                check.violation("%s: doc text is generated outside a comment although no comment entry is in the open known class; "
                                 "sentinels %s" % (lang, j["outside"][:5]),
                                 case={"source": c["src"], "lang": lang, "request": c["r"], "docs": c["docs"]}, impl=ra, model=ma,
                                 failing_input=True)
@@ -471,16 +529,16 @@ def run(check):
             if j["outside"]:
                 for sty, d in j["bad"]:
                     w = {"lang": lang, "doc": d, "sentinels_outside": j["outside"][:5]}
-                    if not check.known(CLASS[sty], w):
+                    if not (sty in CLASS and check.known(CLASS[sty], w)):
                         check.violation("%s: doc string %r breaks out of its comment (class %s is not an open known finding)"
-                                        % (lang, d, CLASS[sty]),
+                                        % (lang, d, CLASS.get(sty, "of style %s: none, C15_all_but_scala" % sty)),
                                         case={"source": c["src"], "lang": lang, "request": c["r"]}, impl=ra, model=ma, failing_input=True)
                         return
             if j["escapes_inside"] and ma == ra:
                 check.violation("%s: the only Bad doc string %r does not break out according to the python lexer, although "
-                                "C15_converse says it does" % (lang, j["bad"][0][1]),
+                                "C15_renderer_converse says it does" % (lang, j["bad"][0][1]),
                                 case={"source": c["src"], "lang": lang}, impl=ra, model=ma, failing_input=False,
-                                broken="oracle lexer vs theorem TsV.C15.C15_converse")
+                                broken="oracle lexer vs theorem TsV.C15.C15_renderer_converse")
                 return
             if ma != ra and not j["outside"]:
                 # inside a known class the implementation differs from the model and keeps all doc text in comments: tolerated
@@ -522,7 +580,8 @@ def run(check):
         check.violation("%s generation differs from the model (no doc text outside a comment was found on the implementation's "
                         "output of clean cases): %s" % (c["lang"], what or (str(ma)[:200] + " vs " + str(ra)[:200])),
                         case={"source": c["src"], "lang": c["lang"], "request": c["r"]}, impl=ra, model=ma, failing_input=False,
-                        broken="correspondence L2 generate_types incl. write_comments (theorems TsV.C15.C15_iff, C15_partial, C15_render)")
+                        broken="correspondence L2 generate_types incl. parse_comment_attrs / write_comments (theorems TsV.C15.C15_exact, "
+                               "C15_partial, C15_all_but_scala, C15_parser, C15_render)")
     check.assumptions += [
         "the comment lexers are the comment syntax only (no string / template / raw-string literals for the // family): exact on "
         "comment blocks, whose code parts are white space; on whole files they are used to locate sentinels, which occur only in "
